@@ -940,9 +940,20 @@ func init() {
 						}
 						okk, bad = false, pathOf(v)
 					case *ssa.Call:
-						if id := funcID(calleeObj(&x.Call)); id != "strings.Fields" {
-							okk, bad = false, "the result of "+id
+						id := funcID(calleeObj(&x.Call))
+						if id == "strings.Fields" {
+							return
 						}
+						// a helper of the package that returns the fields: look at what it returns
+						if sc := x.Call.StaticCallee(); sc != nil && sc.Pkg == fn.Pkg && sc.Blocks != nil && d < 6 {
+							for _, b := range sc.Blocks {
+								if ret, ok := b.Instrs[len(b.Instrs)-1].(*ssa.Return); ok && len(ret.Results) > 0 {
+									walk(ret.Results[0], d+1)
+								}
+							}
+							return
+						}
+						okk, bad = false, "the result of "+id
 					case *ssa.Const:
 					default:
 						okk, bad = false, pathOf(v)
